@@ -19,6 +19,9 @@ def events (before : Ring) (tl : Nat) (res : Res) : String :=
   | .oom => "LtLh"
   | .ok _ _ => if before.head = tl then "LtLhShSt" else "LtLhSh"
 
+/-- `aws_ring_buffer_is_valid` after the call: true in every reachable state (`c15_is_valid_holds`) -/
+def validLine : String := "P valid=1"
+
 /-- `k` releases injected before atomic access number `p` of the call: `p = 0` is before the tail load (the acquirer
 sees them), `p ≥ 1` is after it (the acquirer decides on the stale tail; the releases only store `tail`, which the
 acquirer no longer reads, so their position behind the tail load does not matter). -/
@@ -27,18 +30,18 @@ def doAcquire (r : Ring) (k p : Nat) (argsInvalid : Bool) (f : Ring → Nat → 
     -- the argument check precedes every atomic access; pending releases happen after the call
     let (r', res) := f r r.tail
     let r'' := rels r' k
-    (r'', [s!"W ev={events r r.tail res}"] ++ showRes res ++ [s!"P outstanding={r''.out.length}"])
+    (r'', [s!"W ev={events r r.tail res}"] ++ showRes res ++ [s!"P outstanding={r''.out.length}", validLine])
   else
     let r0 := if p = 0 then rels r k else r
     let tl := r0.tail
     let r1 := if p = 0 then r0 else rels r0 k
     let (r', res) := f r1 tl
-    (r', [s!"W ev={events r1 tl res}"] ++ showRes res ++ [s!"P outstanding={r'.out.length}"])
+    (r', [s!"W ev={events r1 tl res}"] ++ showRes res ++ [s!"P outstanding={r'.out.length}", validLine])
 
 def step (s : Option Ring) (t : List String) : Option Ring × List String :=
   match s, t with
   | _, ["init", n] => match parseSize? n with
-    | some n => (some (init n), [])
+    | some n => (some (init n), [validLine])
     | none => (s, ["bad-op"])
   | some r, ["acq", k, p, q] => match k.toNat?, p.toNat?, parseSize? q with
     | some k, some p, some q =>
@@ -50,7 +53,7 @@ def step (s : Option Ring) (t : List String) : Option Ring × List String :=
       let (r', ls) := doAcquire r k p (q = 0 ∨ m = 0) (fun r t => acquireUpToWith r t m q)
       (some r', ls)
     | _, _, _, _ => (s, ["bad-op"])
-  | some r, ["rel"] => let r' := release r; (some r', [s!"P outstanding={r'.out.length}"])
+  | some r, ["rel"] => let r' := release r; (some r', [s!"P outstanding={r'.out.length}", validLine])
   | _, _ => (s, ["bad-op"])
 
 def component : Component := { σ := Option Ring, init := none, step := step }
